@@ -398,6 +398,7 @@ func cmdRac(args []string) int {
 		fmt.Fprintln(os.Stderr, err)
 		return 2
 	}
+	setKnownRacClauses(loadKnownFindings(filepath.Join(*verif, "known_findings.txt")))
 	src, notes, err := buildReplayTest(p, s, nil)
 	if err != nil {
 		fmt.Fprintln(os.Stderr, err)
